@@ -629,7 +629,7 @@ Lemma step_sim : forall K d s o ch d1 x s1 r data,
 Proof.
   intros K d s o ch d1 x s1 r data HK I R Hstep Hspec.
   pose proof (inv_wf _ _ I) as W. pose proof (wf_nf _ _ W) as Hnf.
-  destruct o as [off wdata|off len|name user|name|src dst|name|name|name|pre|pre|pb|nb| |cp|off len fi|cp victim fail];
+  destruct o as [off wdata|off len|name user|name|src dst|name|name|name|pre|pre|pb|nb| |cp|off len fi|cp victim fail|off len];
     cbn [step spec_step snd] in Hstep, Hspec.
   - (* Write *)
     rewrite (r_size _ _ _ R) in Hspec.
@@ -798,6 +798,8 @@ Proof.
         destruct (merged_sim K (mark d p) _ p Im Rm H2 Hn Hpar) as (I1 & R1'). cbn [live snaps size] in R1'.
         rewrite drop_mark in R1' by (rewrite ?(r_len _ _ _ R); lia).
         done4.
+  - (* Unmap: outside the specification *)
+    discriminate.
 Qed.
 
 (** whether the specification speaks about an operation does not depend on the hint (the result class of a
